@@ -13,9 +13,10 @@ grep -rl "/repo" $sb/check $sb/harness/Cargo.toml $sb/harness/src | xargs sed -i
 # cargo names the artifacts of workspace members by their path relative to the workspace root, so a
 # target directory shared by several worktrees re-uses another worktree's crates whenever the
 # sources are older than the artifacts: the scc binary gets its own directory per worktree
-if [ "$(cat $sb/.last_worktree 2>/dev/null)" != "$wt" ]; then
+mkdir -p $sb/harness/target
+if [ "$(cat $sb/harness/target/.last_worktree 2>/dev/null)" != "$wt" ]; then
   rm -rf $sb/harness/target-scc
-  echo "$wt" > $sb/.last_worktree
+  echo "$wt" > $sb/harness/target/.last_worktree
 fi
 cd $sb
 for p in "$@"; do
